@@ -151,3 +151,24 @@ def unique_rows(rng, N, n):
     """N pairwise distinct n-bit rows (requires N <= 2^n)."""
     idx = rng.choice(2 ** n, size=N, replace=False)
     return np.array([[(i >> (n - 1 - j)) & 1 for j in range(n)] for i in idx], dtype=float)
+
+
+CONTAINER_FORMS = ["list", "tuple", "CallbackList", "generator", "iterator", "filter"]
+
+
+def as_container(cbs, form):
+    """The same callbacks handed to fit() in another container: fit() documents a list, but takes whatever CallbackList(...)
+    can iterate over - including one-shot iterables, which must not be consumed before they are used."""
+    if form == "tuple":
+        return tuple(cbs)
+    if form == "CallbackList":
+        from qucumber.callbacks import CallbackList
+
+        return CallbackList(list(cbs))
+    if form == "generator":
+        return (c for c in cbs)
+    if form == "iterator":
+        return iter(list(cbs))
+    if form == "filter":
+        return filter(lambda c: c is not None, list(cbs))
+    return list(cbs)
